@@ -12,7 +12,10 @@ id lists are in global position order.
 * `dcres <sizes> <commitIds> <D|off> <prefix>`            → `resolveCommitWithin`
 * `dchshort <sizes> <changeIds> <D|off> <refs> <id>`      → `disambiguateWithRefs ∘ shortestWithin`
 * `dchres <sizes> <changeIds> <index> <heads> <D|off> <prefix>` → `resolveChangeWithin`
-(`<index>` = parent positions per position as in C18; `D` = ids of the disambiguation set.)
+* `ixshort <keys> <id>`                                    → `idIndexShortest` (`IdIndex::lookup_exact(..).map(shortest_unique_prefix_len)`): `none` / `some:<n>`
+* `ixres <keys> <prefix>`                                 → `idIndexResolve` (`IdIndex::resolve_prefix_to_key`)
+(`<index>` = parent positions per position as in C18; `D` = ids of the disambiguation set;
+`<keys>` = the keys inserted into an `IdIndex`, in insertion order.)
 -/
 namespace JjModel.Drv.C20
 open JjModel.Index JjModel.IdPrefix JjModel.Drv
@@ -103,6 +106,16 @@ def handle : List String → Option String
     let p ← parseId p
     if sizes.sum = ids.length ∧ idx.length = ids.length then
       some (showTargets (resolveChangeWithin dis idx heads (mkSegs false sizes ids 0 []) p)) else none
+  | ["ixshort", keys, key] => do
+    let keys ← parseIds keys
+    let key ← parseId key
+    some (match idIndexShortest keys key with
+      | none => "none"
+      | some l => s!"some:{l}")
+  | ["ixres", keys, p] => do
+    let keys ← parseIds keys
+    let p ← parseId p
+    some (showRes (idIndexResolve keys p))
   | _ => none
 
 end JjModel.Drv.C20
